@@ -168,7 +168,11 @@ func (fc *fmtConfig) genLit(rt *rapid.T) []byte {
 
 // starOperand: the int operand of a '*' (public).
 func genStarOperand(rt *rapid.T) *Val {
-	switch rapid.IntRange(0, 9).Draw(rt, "star") {
+	switch rapid.IntRange(0, 10).Draw(rt, "star") {
+	case 10:
+		// integers of every kind at the edges of their range
+		return []*Val{{K: "uint64", I: -1}, {K: "uint64", I: -1000}, {K: "uint", I: -7}, {K: "uintptr", I: -1}, {K: "uint64", I: -9223372036854775808},
+			{K: "int64", I: 9223372036854775807}, {K: "int64", I: -9223372036854775808}, {K: "int32", I: -2147483648}, {K: "uint32", I: 4294967295}, {K: "nint", I: 3}}[rapid.IntRange(0, 9).Draw(rt, "staredge")]
 	case 0:
 		return &Val{K: "int", I: int64(-rapid.IntRange(1, 12).Draw(rt, "sneg"))}
 	case 1:
